@@ -240,7 +240,5 @@ Print Assumptions C18x_model_ok_partial.
    VolatileSlice::copy_to / copy_from - answer buf.len() / do nothing, for every k below 2^64 - meets the
    checker (success, the count, nothing touched) *)
 Theorem C18huge_model_ok : forall op k, ok_C18huge op k (run_C18huge op k) = true.
-Proof.
-  intros op k. unfold ok_C18huge, run_C18huge. destruct (op =? 10); rewrite ?N.eqb_refl; reflexivity.
-Qed.
+Proof. exact C18huge_model_ok_lemma. Qed.
 Print Assumptions C18huge_model_ok.
